@@ -257,4 +257,228 @@ theorem enumToU64_lt (i : Int) : enumToU64 i < two64 := by
   have := Int.emod_lt_of_pos i (show (0:Int) < ((18446744073709551616 : Nat) : Int) by decide)
   have := Int.emod_nonneg i (show (((18446744073709551616 : Nat) : Int)) ≠ 0 by decide)
   omega
+
+theorem mapOpt_map_map {f : β → Option γ} {h : α → β} {g : α → γ} : ∀ (l : List α), (∀ a ∈ l, f (h a) = some (g a)) →
+    mapOpt f (l.map h) = some (l.map g)
+  | [], _ => rfl
+  | a :: l, hh => by
+    simp [mapOpt, hh a (by simp), mapOpt_map_map l (fun x hx => hh x (by simp [hx]))]
+
+/-! ## map entries, metadata -/
+
+theorem entry_plain (kv : Bytes × Bytes) : plainToks (entryToks kv) = true := by
+  simp [plainToks, entryToks, maxValidNum]
+
+theorem mapEntry_encode (kv : Bytes × Bytes) (hk : validUtf8 kv.1 = true) (hv : validUtf8 kv.2 = true)
+    (hw : (entryToks kv).all wfTok = true) : mapEntry (encodeToks (entryToks kv)) = some kv := by
+  unfold mapEntry
+  rw [fields_encode _ hw (entry_plain kv)]
+  simp [entryToks, entryFold, entryStep, hk, hv]
+
+theorem keysNodup_append_cons {pre m : List (Bytes × Bytes)} {kv : Bytes × Bytes} :
+    keysNodup (pre ++ kv :: m) = true → pre.any (fun x => x.1 == kv.1) = false := by
+  induction pre with
+  | nil => simp
+  | cons x pre ih =>
+    intro h
+    simp only [List.cons_append, keysNodup, Bool.and_eq_true, Bool.not_eq_true', List.any_eq_false] at h
+    simp only [List.any_cons, Bool.or_eq_false_iff]
+    refine ⟨?_, ih h.2⟩
+    have := h.1 kv (by simp)
+    simp only [beq_iff_eq] at this
+    simp only [beq_eq_false_iff_ne, ne_eq]
+    intro e; exact this e.symm
+
+theorem foldl_mput : ∀ (m : List (Bytes × Bytes)) (s : OptsRaw), keysNodup (s.metadata ++ m) = true →
+    (m.map (fun kv => OUpd.mput kv.1 kv.2)).foldl applyO s = { s with metadata := s.metadata ++ m }
+  | [], s, _ => by simp
+  | kv :: m, s, h => by
+    have hany := keysNodup_append_cons h
+    simp only [List.map_cons, List.foldl_cons, applyO, putMeta, hany, Bool.false_eq_true, if_false]
+    have h' : keysNodup (({ s with metadata := s.metadata ++ [(kv.1, kv.2)] } : OptsRaw).metadata ++ m) = true := by
+      simpa using h
+    rw [foldl_mput m _ h']
+    simp
+
+theorem foldl_origin : ∀ (l : List Bytes) (s : OptsRaw),
+    (l.map OUpd.origin).foldl applyO s = { s with origins := s.origins ++ l }
+  | [], s => by simp
+  | b :: l, s => by
+    simp only [List.map_cons, List.foldl_cons, applyO]
+    rw [foldl_origin l]
+    simp
+
+theorem foldl_alloc : ∀ (l : List Bytes) (s : PinRaw),
+    (l.map PUpd.alloc).foldl applyP s = { s with allocs := s.allocs ++ l }
+  | [], s => by simp
+  | b :: l, s => by
+    simp only [List.map_cons, List.foldl_cons, applyP]
+    rw [foldl_alloc l]
+    simp
+
+/-! ## `pb.PinOptions` -/
+
+/-- the updates the canonical tokens of an options message decode to -/
+def updsOpts (o : OptsRaw) : List OUpd :=
+  (if o.rmin != 0 then [OUpd.rmin o.rmin] else []) ++ (if o.rmax != 0 then [OUpd.rmax o.rmax] else []) ++
+  (if !o.name.isEmpty then [OUpd.name o.name] else []) ++ (if o.shardSize != 0 then [OUpd.shard o.shardSize] else []) ++
+  o.metadata.map (fun kv => OUpd.mput kv.1 kv.2) ++ (if !o.pinUpdate.isEmpty then [OUpd.upd o.pinUpdate] else []) ++
+  (if o.expireAt != 0 then [OUpd.exp o.expireAt] else []) ++ o.origins.map OUpd.origin
+
+theorem mapOpt_toksOpts (o : OptsRaw) (hw : wfOptsRaw o = true)
+    (hf : (o.metadata.all fun kv => (entryToks kv).all wfTok) = true) :
+    mapOpt optUpd (toksOpts o) = some (updsOpts o) := by
+  simp only [wfOptsRaw, Bool.and_eq_true, decide_eq_true_eq] at hw
+  obtain ⟨⟨⟨⟨⟨h1, h2⟩, h3⟩, _⟩, _⟩, h6⟩ := hw
+  unfold toksOpts updsOpts
+  refine mapOpt_append (mapOpt_append (mapOpt_append (mapOpt_append (mapOpt_append (mapOpt_append (mapOpt_append ?_ ?_) ?_) ?_) ?_) ?_) ?_) ?_
+  · exact mapOpt_optTok (by simp [optUpd, unzigzag32_zigzag32 _ h1])
+  · exact mapOpt_optTok (by simp [optUpd, unzigzag32_zigzag32 _ h2])
+  · exact mapOpt_optTok (by simp [optUpd, h3])
+  · exact mapOpt_optTok (by simp [optUpd])
+  · apply mapOpt_map_map
+    intro kv hkv
+    have hv := List.all_eq_true.mp h6 kv hkv
+    simp only [Bool.and_eq_true] at hv
+    have hwf := List.all_eq_true.mp hf kv hkv
+    simp [optUpd, mapEntry_encode kv hv.1 hv.2 hwf]
+  · exact mapOpt_optTok (by simp [optUpd])
+  · exact mapOpt_optTok (by simp [optUpd])
+  · apply mapOpt_map_map
+    intro b _
+    simp [optUpd]
+
+theorem foldl_updsOpts (o : OptsRaw) (hn : keysNodup o.metadata = true) : (updsOpts o).foldl applyO OptsRaw.zero = o := by
+  unfold updsOpts
+  simp only [List.foldl_append]
+  have e1 : (if o.rmin != 0 then [OUpd.rmin o.rmin] else []).foldl applyO OptsRaw.zero = { OptsRaw.zero with rmin := o.rmin } := by
+    by_cases h : o.rmin = 0 <;> simp [h, applyO, OptsRaw.zero]
+  rw [e1]
+  have e2 : ∀ s : OptsRaw, s.rmax = 0 → (if o.rmax != 0 then [OUpd.rmax o.rmax] else []).foldl applyO s = { s with rmax := o.rmax } := by
+    intro s hs; by_cases h : o.rmax = 0
+    · cases s; simp_all
+    · simp [h, applyO]
+  rw [e2 _ rfl]
+  have e3 : ∀ s : OptsRaw, s.name = [] → (if !o.name.isEmpty then [OUpd.name o.name] else []).foldl applyO s = { s with name := o.name } := by
+    intro s hs; by_cases h : o.name = []
+    · cases s; simp_all
+    · simp [h, applyO]
+  rw [e3 _ rfl]
+  have e4 : ∀ s : OptsRaw, s.shardSize = 0 → (if o.shardSize != 0 then [OUpd.shard o.shardSize] else []).foldl applyO s = { s with shardSize := o.shardSize } := by
+    intro s hs; by_cases h : o.shardSize = 0
+    · cases s; simp_all
+    · simp [h, applyO]
+  rw [e4 _ rfl, foldl_mput _ _ (by simpa [OptsRaw.zero] using hn)]
+  have e5 : ∀ s : OptsRaw, s.pinUpdate = [] → (if !o.pinUpdate.isEmpty then [OUpd.upd o.pinUpdate] else []).foldl applyO s = { s with pinUpdate := o.pinUpdate } := by
+    intro s hs; by_cases h : o.pinUpdate = []
+    · cases s; simp_all
+    · simp [h, applyO]
+  rw [e5 _ rfl]
+  have e6 : ∀ s : OptsRaw, s.expireAt = 0 → (if o.expireAt != 0 then [OUpd.exp o.expireAt] else []).foldl applyO s = { s with expireAt := o.expireAt } := by
+    intro s hs; by_cases h : o.expireAt = 0
+    · cases s; simp_all
+    · simp [h, applyO]
+  rw [e6 _ rfl, foldl_origin]
+  simp [OptsRaw.zero]
+
+theorem toksOpts_plain (o : OptsRaw) : plainToks (toksOpts o) = true := by
+  simp only [plainToks, toksOpts, List.all_append, Bool.and_eq_true, optTok]
+  refine ⟨⟨⟨⟨⟨⟨⟨?_, ?_⟩, ?_⟩, ?_⟩, ?_⟩, ?_⟩, ?_⟩, ?_⟩ <;> first
+    | (split <;> simp [maxValidNum])
+    | simp [maxValidNum]
+
+/-- the options message is read back from its canonical tokens -/
+theorem opts_fields_roundtrip (o : OptsRaw) (hw : wfOptsRaw o = true) (hn : keysNodup o.metadata = true)
+    (hf : (toksOpts o).all wfTok = true) (hfe : (o.metadata.all fun kv => (entryToks kv).all wfTok) = true) :
+    ((fields (encodeToks (toksOpts o))).bind (mapOpt optUpd)).map (fun us => us.foldl applyO OptsRaw.zero) = some o := by
+  rw [fields_encode _ hf (toksOpts_plain o)]
+  simp [mapOpt_toksOpts o hw hfe, foldl_updsOpts o hn]
+
+/-! ## `pb.Pin` -/
+
+def updsPin (p : PinRaw) : List PUpd :=
+  (if !p.cid.isEmpty then [PUpd.cid p.cid] else []) ++ (if p.type != 0 then [PUpd.type p.type] else []) ++
+  p.allocs.map PUpd.alloc ++ (if p.maxDepth != 0 then [PUpd.depth p.maxDepth] else []) ++
+  (if !p.reference.isEmpty then [PUpd.ref p.reference] else []) ++
+  (match p.opts with | some o => [PUpd.opts (updsOpts o)] | none => [])
+
+/-- well-formedness of a message for the round trip: value ranges, UTF-8 strings, unique map keys, lengths that fit -/
+def wfMsg (p : PinRaw) : Bool :=
+  wfPinRaw p && fitsWire p && match p.opts with | some o => keysNodup o.metadata | none => true
+
+theorem mapOpt_toksPin (p : PinRaw) (hw : wfMsg p = true) : mapOpt pinUpd (toksPin p) = some (updsPin p) := by
+  simp only [wfMsg, wfPinRaw, fitsWire, Bool.and_eq_true] at hw
+  obtain ⟨⟨⟨⟨h1, h2⟩, h3⟩, ⟨_, h5⟩⟩, _⟩ := hw
+  unfold toksPin updsPin
+  refine mapOpt_append (mapOpt_append (mapOpt_append (mapOpt_append (mapOpt_append ?_ ?_) ?_) ?_) ?_) ?_
+  · exact mapOpt_optTok (by simp [pinUpd])
+  · exact mapOpt_optTok (by simp [pinUpd, u64ToI32_enum _ h1])
+  · apply mapOpt_map_map
+    intro b _
+    simp [pinUpd]
+  · exact mapOpt_optTok (by simp [pinUpd, unzigzag32_zigzag32 _ h2])
+  · exact mapOpt_optTok (by simp [pinUpd])
+  · cases ho : p.opts with
+    | none => simp [optsToks, mapOpt]
+    | some o =>
+      simp only [ho, Bool.and_eq_true] at h3 h5
+      simp only [optsToks, mapOpt, pinUpd]
+      rw [fields_encode _ h5.1 (toksOpts_plain o)]
+      simp [mapOpt_toksOpts o h3 h5.2]
+
+theorem foldl_updsPin (p : PinRaw) (hn : (match p.opts with | some o => keysNodup o.metadata | none => true) = true) :
+    (updsPin p).foldl applyP PinRaw.zero = p := by
+  unfold updsPin
+  simp only [List.foldl_append]
+  have e1 : (if !p.cid.isEmpty then [PUpd.cid p.cid] else []).foldl applyP PinRaw.zero = { PinRaw.zero with cid := p.cid } := by
+    by_cases h : p.cid = [] <;> simp [h, applyP, PinRaw.zero]
+  rw [e1]
+  have e2 : ∀ s : PinRaw, s.type = 0 → (if p.type != 0 then [PUpd.type p.type] else []).foldl applyP s = { s with type := p.type } := by
+    intro s hs; by_cases h : p.type = 0
+    · cases s; simp_all
+    · simp [h, applyP]
+  rw [e2 _ rfl, foldl_alloc]
+  have e3 : ∀ s : PinRaw, s.maxDepth = 0 → (if p.maxDepth != 0 then [PUpd.depth p.maxDepth] else []).foldl applyP s = { s with maxDepth := p.maxDepth } := by
+    intro s hs; by_cases h : p.maxDepth = 0
+    · cases s; simp_all
+    · simp [h, applyP]
+  rw [e3 _ rfl]
+  have e4 : ∀ s : PinRaw, s.reference = [] → (if !p.reference.isEmpty then [PUpd.ref p.reference] else []).foldl applyP s = { s with reference := p.reference } := by
+    intro s hs; by_cases h : p.reference = []
+    · cases s; simp_all
+    · simp [h, applyP]
+  rw [e4 _ rfl]
+  cases ho : p.opts with
+  | none =>
+    obtain ⟨c, t, a, d, r, o⟩ := p
+    simp only at ho
+    simp [PinRaw.zero, ho]
+  | some o =>
+    simp only [ho] at hn
+    obtain ⟨c, t, a, d, r, o'⟩ := p
+    simp only at ho
+    simp [PinRaw.zero, ho, applyP, foldl_updsOpts o hn]
+
+theorem toksPin_plain (p : PinRaw) : plainToks (toksPin p) = true := by
+  simp only [plainToks, toksPin, List.all_append, Bool.and_eq_true, optTok]
+  refine ⟨⟨⟨⟨⟨?_, ?_⟩, ?_⟩, ?_⟩, ?_⟩, ?_⟩
+  · split <;> simp [maxValidNum]
+  · split <;> simp [maxValidNum]
+  · simp [maxValidNum]
+  · split <;> simp [maxValidNum]
+  · split <;> simp [maxValidNum]
+  · cases p.opts <;> simp [optsToks, maxValidNum]
+
+/-- message-level: the canonical tokens of a message decode to the message -/
+theorem pinOfToks_toksPin (p : PinRaw) (hw : wfMsg p = true) : pinOfToks (toksPin p) = some p := by
+  have hn : (match p.opts with | some o => keysNodup o.metadata | none => true) = true := by
+    simp only [wfMsg, Bool.and_eq_true] at hw; exact hw.2
+  simp [pinOfToks, mapOpt_toksPin p hw, foldl_updsPin p hn]
+
+/-- `proto.Unmarshal(proto.Marshal(m)) = m`, at the byte level -/
+theorem decodePin_encode (p : PinRaw) (hw : wfMsg p = true) : decodePin (encodeToks (toksPin p)) = some p := by
+  have hf : (toksPin p).all wfTok = true := by
+    simp only [wfMsg, fitsWire, Bool.and_eq_true] at hw; exact hw.1.2.1
+  simp [decodePin, fields_encode _ hf (toksPin_plain p), pinOfToks_toksPin p hw]
+
 end CV.C08.Wire
